@@ -26,8 +26,9 @@ batch)
 	SEED=$2; SECS=$3; TIER=${4:-quick}; shift; shift; shift; shift || true
 	rm -f $D/out/*
 	NS=$(python3 -c "import json;print(max(s['id'] for s in json.load(open('$D/copy/verifsim-sites.json'))['sites'])+1)")
+	python3 -c "import json;json.dump(json.load(open('$D/copy/verifsim-sites.json')).get('integer_constants') or [],open('$D/consts.json','w'))"
 	python3 -c "import json;json.dump([s['id'] for s in json.load(open('$D/copy/verifsim-sites.json'))['sites'] if s.get('hot')],open('$D/hot.json','w'))"
-	GEOSIM_HOT=$D/hot.json GOMAXPROCS=1 GORACE="halt_on_error=0 exitcode=0 atexit_sleep_ms=0 history_size=2 log_path=$D/out/race-0" $D/simworker batch -seed $SEED -worker 0 -tier $TIER -seconds $SECS -out $D/out -sites $NS "$@" 2>&1 | cut -c1-700
+	GEOSIM_CONSTS=$D/consts.json GEOSIM_HOT=$D/hot.json GOMAXPROCS=1 GORACE="halt_on_error=0 exitcode=0 atexit_sleep_ms=0 history_size=2 log_path=$D/out/race-0" $D/simworker batch -seed $SEED -worker 0 -tier $TIER -seconds $SECS -out $D/out -sites $NS "$@" 2>&1 | cut -c1-700
 	$0 report
 	;;
 report)
